@@ -379,6 +379,13 @@ def struct_emitters(X):
             if RE_STRUCT_OPEN.match(e.skeleton()) and not any(complete.get(c) for c in e.chain[1:]):
                 out.append(fn)
                 break
+    # an emitter whose whole text another emitter takes in (a private helper writing one of the caller's structs, handed the
+    # names as parameters) is read in that caller's stream, where its parameters have values, and not on its own
+    called = set()
+    for fn in out:
+        for e in streams[fn]:
+            called |= {c for c in e.chain[1:] if c != fn}
+    out = [fn for fn in out if fn not in called]
     X._struct_emitters = sorted(out)
     return X._struct_emitters
 
